@@ -23,6 +23,7 @@ func genConvoy(t *rapid.T) *ConvoyCase {
 	})
 	cc.Ops = rapid.SliceOfN(op, 1, 6).Draw(t, "ops")
 	cc.NoLever = rapid.SampledFrom(oneIn8).Draw(t, "nolever")
+	cc.Names = genNames(t, convoyAddrs, "z")
 	return cc
 }
 
@@ -99,6 +100,8 @@ func TestC16Convoy(t *testing.T) {
 			lb = append(lb, "request-races-the-last-release")
 		}
 		lb = append(lb, fmt.Sprintf("ops-%d", len(cc.Ops)))
+		tab, _ := addrTable(cc.Names, convoyAddrs)
+		lb = append(lb, nameLabels(tab, len(cc.Names) > 0)...)
 		rec.Case(cc, dupWhileHeld && st.lever, lb...)
 		if err != nil {
 			rt.Logf("%s", rec.Fail(cc, classOf(err), "%v", err))
